@@ -174,7 +174,12 @@ def effectivenessViolation (n : Nat) (t : PT Q) : Option String :=
       -- every `Infeasible` answer is checked against a margin separately (C10 clause of the history judge)
       if childStates == ["X"] then none
       else some s!"decision {nd.idx} (state {showState nd.state}) below the root is left with a single branch (state of the remaining child: {childStates})"
-    else if emptyEvenGrown n nd.path then some s!"node {nd.idx} remains although its path region is empty (certified, margin 1e-6)"
+    else if emptyEvenGrown n nd.path then
+      let mags := ((nd.path.flatMap (fun h => h.mat.flatMap id)).filter (· != 0)).map absQ
+      let hi := mags.foldl max 0
+      let lo := mags.foldl min hi
+      let ill := lo > 0 && hi / lo ≥ (2 : Q) ^ 20
+      some s!"node {nd.idx} (state {showState nd.state}) remains although its path region is empty (certified, margin 1e-6){if ill then " (ill-scaled system: coefficient magnitudes differ by a factor ≥ 2^20)" else ""}"
     else none)
 
 mutual
